@@ -42,6 +42,96 @@ def cmdAtoi : P String := do
   let feats := s!"nt={if s.length ≥ 2 then 1 else 0} len={if s.length > 20 then 21 else s.length} res={if m.isSome then "ok" else "err"}"
   if ms == os then return s!"OK {feats}" else return s!"DIFF C20 atoi model={ms} real={os} {feats}"
 
-def table : List (String × P String) := [("act", cmdAct), ("atoi", cmdAtoi)]
+
+/-! ## C19: `addr <n> {<addr> <pre> <must> <cmp> <kind>} | {<class> <network> <laddr> <afterBind> <reach> <afterShutdown> <clientClass> <servRet>}` -/
+
+structure AddrStep where
+  addr : Bytes
+  pre : String
+  must : Bool
+  cmp : Bool
+  kind : String
+
+structure AddrObs where
+  cls : String
+  network : Bytes
+  laddr : Bytes
+  afterBind : Nat
+  reach : Nat
+  afterShutdown : Nat
+  clientClass : String
+  servRet : String
+
+
+/-- judge one step; returns (failure reason or none, next model state) -/
+def judgeAddr (σ : BindState) (s : AddrStep) (o : AddrObs) : Option String × BindState :=
+  let (σ', r) := bind σ s.addr
+  -- the property itself, read off the string (independent of `bind`): refusal classes
+  let reading := endpointOf s.addr
+  let propertySaysRefuse : Bool := match reading with
+    | none => true
+    | some (p, ad) => !(p == protoUnix || p == protoTcp) || (p == protoUnix && ad.isEmpty)
+  if o.cls == "panic" || o.clientClass == "panic" then (some "panic", σ')
+  else if propertySaysRefuse && o.cls == "ok" then (some "ill-formed-address-accepted", σ')
+  else
+  match r with
+  | .refusedRunning => (if o.cls == "running" then none else some s!"model=running,observed={o.cls}", σ')
+  | .refusedParse e =>
+    let want := match e with
+      | .emptyUnixPath => "invalid-address"
+      | _ => "unknown-protocol"
+    (if o.cls == want then none else some s!"model={want},observed={o.cls}", σ')
+  | .panic => (some "model-panics", σ')
+  | .attempt p ad rm ul =>
+    if o.cls == "listenerr" then
+      (if s.must then some "valid-address-not-bound" else none, σ')
+    else if o.cls != "ok" then (some s!"model=attempt,observed={o.cls}", σ')
+    else
+      -- a successful serve ends with teardown: the address fields are cleared
+      let σ'' : BindState := {}
+      let isFs := p == protoUnix && !isAbstract ad
+      if o.network != p then (some "wrong-network", σ'')
+      else if s.cmp && o.laddr != ad then (some "wrong-endpoint", σ'')
+      else if isFs && o.afterBind != 1 then (some "socket-path-not-created", σ'')
+      else if isFs && ul && o.afterShutdown != 0 then (some "socket-path-not-removed", σ'')
+      else if rm != isFs || ul != isFs then (some "model-fs-flags", σ'')
+      -- a tcp endpoint whose port the kernel chooses ("tcp:", "…:0") cannot be named by the same string
+      else if o.reach != 1 && (p == protoUnix || s.cmp || s.kind == "tcp-name") then (some "client-with-same-string-does-not-reach-service", σ'')
+      else if o.servRet != "nil" then (some s!"serving-call-returned-{o.servRet}-after-shutdown", σ'')
+      else (none, σ'')
+
+def cmdAddr : P String := do
+  let n ← nat
+  let rec steps : Nat → P (List AddrStep)
+    | 0 => pure []
+    | k + 1 => do
+      let a ← bytes; let pre ← tok; let must ← bool; let cmp ← bool; let kind ← tok
+      let r ← steps k
+      pure ({ addr := a, pre, must, cmp, kind } :: r)
+  let ss ← steps n
+  expect "|"
+  let rec obss : Nat → P (List AddrObs)
+    | 0 => pure []
+    | k + 1 => do
+      let c ← tok; let nw ← bytes; let la ← bytes; let ab ← nat; let re ← nat; let ash ← nat
+      let cc ← tok; let sr ← tok
+      let r ← obss k
+      pure ({ cls := c, network := nw, laddr := la, afterBind := ab, reach := re, afterShutdown := ash, clientClass := cc, servRet := sr } :: r)
+  let os ← obss n
+  let rec go (σ : BindState) : List AddrStep → List AddrObs → Option String
+    | s :: ss, o :: os =>
+      match judgeAddr σ s o with
+      | (some why, _) => some s!"{why} kindfail={s.kind}"
+      | (none, σ') => go σ' ss os
+    | _, _ => none
+  let kinds := String.intercalate "," (ss.map (·.kind))
+  let classes := String.intercalate "," (os.map (·.cls))
+  let nt := if ss.any (fun s => (s.addr.filter (fun c => c == colon || c == semi)).length ≥ 2) then 1 else 0
+  let feats := s!"nt={nt} steps={n} first={(ss.head?.map (·.kind)).getD "-"} firstclass={(os.head?.map (·.cls)).getD "-"} seq={kinds}/{classes}"
+  match go {} ss os with
+  | some why => return s!"DIFF C19 {why} {feats}"
+  | none => return s!"OK {feats}"
+
+def table : List (String × P String) := [("act", cmdAct), ("atoi", cmdAtoi), ("addr", cmdAddr)]
 
 end Driver.Misc
